@@ -1,0 +1,33 @@
+//! Verification hooks, compiled only with `--cfg in_toto_rs_verif`.
+//!
+//! They give an external harness access to crate-private entry points and
+//! change nothing else: without the cfg flag this module does not exist.
+
+use std::collections::HashMap;
+
+use crate::models::supply_chain_item::SupplyChainItem;
+use crate::models::LinkMetadata;
+use crate::Result;
+
+/// `rulelib::apply_rules_on_link` (the per-item artifact rule engine).
+pub fn apply_rules_on_link(
+    item: &Box<dyn SupplyChainItem>,
+    reduced_link_files: &HashMap<String, LinkMetadata>,
+) -> Result<()> {
+    crate::rulelib::apply_rules_on_link(item, reduced_link_files)
+}
+
+/// DSSE v1 pre-authentication encoding.
+pub fn pae_pack(payload_type: String, payload: &[u8]) -> Vec<u8> {
+    crate::models::verif_hooks::DSSEVersion::V1.pack(payload, payload_type)
+}
+
+/// DSSE v1 pre-authentication decoding.
+pub fn pae_unpack(bytes: &[u8]) -> Result<(Vec<u8>, String)> {
+    crate::models::verif_hooks::DSSEVersion::V1.unpack(bytes)
+}
+
+/// DSSE decoding with version detection.
+pub fn pae_try_unpack(bytes: &[u8]) -> Result<(Vec<u8>, String)> {
+    crate::models::verif_hooks::DSSEVersion::try_unpack(bytes)
+}
